@@ -319,6 +319,7 @@ func runC10(c *Ctx) {
 	c.St.Exhaustive = append(c.St.Exhaustive, fmt.Sprintf("all %d strings of length 1..%d over {. # 0 1 a} on a fixed object and list", count, maxLen))
 	c.omoList("C10")
 	c.omoObj("C10")
+	c.indexSpellings("C10")
 	c.derivedCorners("C10")
 	c.lateDerived("C10")
 	c.overriding("C10")
@@ -357,6 +358,30 @@ func runC10(c *Ctx) {
 	}
 	c.readPath(long, "#65999")
 	c.readPath(long, "#66000")
+	// far-out indices: 2^k + d for every k up to 63 — under a narrowing conversion (uint8, int16, uint32 …) they alias a small
+	// index of the list; all of them are beyond the list and must answer Undefined / panic, on every way down to the list
+	small := m.NewList(gvInt(1), gvStr("s"), m.RefGV(m.NewList(gvInt(9))), m.RefGV(m.NewObject(gvStr("a"), gvInt(1))))
+	smallHolder := m.NewObject(gvStr("l"), m.RefGV(small))
+	for k := uint(17); k <= 63; k++ {
+		for d := 0; d <= 3; d++ {
+			i := strconv.FormatUint(uint64(1)<<k+uint64(d), 10)
+			c.readPath(small, "#"+i)
+			c.readPath(smallHolder, ".l#"+i)
+			if d >= 2 {
+				c.readPath(small, "#"+i+"#0")
+				c.readPath(small, "#"+i+".a")
+			}
+			if k%8 == 0 || c.R.Intn(4) == 0 {
+				c.readPath(long, "#"+i)
+				c.readPath(nestedLong, "#0#"+i)
+			}
+		}
+	}
+	for _, i := range []string{"4294967296", "4294967297", "8589934592", "9223372036854775807", "9223372036854775808", "18446744073709551615", "18446744073709551616", "-1", "-4294967296", "256", "257", "65536", "65537"} {
+		c.readPath(small, "#"+i)
+		c.readPath(smallHolder, ".l#"+i)
+		c.readPath(small, "#"+i+".a")
+	}
 	c.St.Eval("long-lists", true)
 	// the known finding K1: keys that begin with a sigil make an empty segment resolve
 	m.Case("k1-sigil-leaf")
@@ -440,6 +465,8 @@ func runC11(c *Ctx) {
 	m, r := c.M, c.R
 	c.St.Rule = "trees x well-formed paths (existing, partially existing, new; index <, =, > n; scalar / nil / other-kind intermediates) x values of every kind, sequences of 1-30 writes and unsets with whole-heap snapshots; non-trivial = path of >= 2 segments; distinct by (tree, path sequence)"
 	opts := &TreeOpts{MaxDepth: 3, MaxWidth: 4, Keys: r.SimpleKey}
+	c.padDerived()
+	c.indexSpellings("C11")
 	for i := 0; i < c.N(400, 6000); i++ {
 		m.Case("write-sequences")
 		t := r.Container(opts, "[{"[r.Intn(2)])
